@@ -112,6 +112,11 @@ def family_mapping(rnd, tier):
             out.append(SC("map-multi-%s-%d" % (dname, n), src + dest_states(shape)[dname], ["s", "t", "f"], "d", cls="mapping"))
         n += 1
         out.append(SC("map-recopyT-%d" % n, src + tree("d", shape), ["s"], "d", T=True, cls="mapping"))
+    # a source that is a relative link to a directory, into a destination that has a directory of the link target's name:
+    # the link is copied as a link; nothing may be written through it into the unrelated destination directory
+    rl = tree("real", {"a": "F1", "sd": {"b": "F2"}}) + [E("ln", "link", "real")] + tree("d", {"real": {"a": "G1", "keep": "F7"}, "other": "F8"}) + [E("by", "file", "F6")]
+    n += 1; out.append(SC("map-rootlink-rel-populated-%d" % n, rl, ["ln"], "d", cls="mapping"))
+    n += 1; out.append(SC("map-rootlink-rel-populated-slash-%d" % n, rl, ["ln"], "d/", cls="mapping"))
     # glob-selected sources
     g = tree("s", {"a.txt": "F1", "b.txt": "F2", "c.dat": "F3", "sub": {"x.txt": "F4"}}) + [E("d", "dir")]
     n += 1; out.append(SC("map-glob-%d" % n, g, ["s/a.txt", "s/b.txt"], "d", r=False, glob=["s/*.txt"], cls="mapping"))
